@@ -51,10 +51,12 @@ theorem expand_one {proj : Project} {s : St} (hI : PdInv proj s) {t : Nat} (ht :
       simp only [List.append_nil, Option.some.injEq] at h
       exact Or.inl h.symm
 
-/-- case analysis of `find_object` for a name that is not registered -/
+/-- case analysis of `find_object` for a name that is not registered (the guard of fix 996ac8b: the root binds the first
+component of the rest, else `LookupError`) -/
 theorem findObject_cases {e : Names.Env} {r0 : Name} {rest : List Name} (hof : Names.objFor e (r0 :: rest) = none)
-    (hne : rest ≠ []) (P : Names.Found → Prop) (h0 : P .external)
+    (hne : rest ≠ []) (P : Names.Found → Prop) (h0 : P .external) (hL : P .lookupError)
     (h1 : ∀ ro, ro ∈ e.st.roots → (∃ o, getObj e.st ro = some o ∧ o.name = r0) →
+      (∀ f tl', rest = f :: tl' → Names.rootBinds e ro f = true) →
       P (match Names.expandName e ro rest with
           | none => .crash
           | some p => match Names.objFor e p with
@@ -66,12 +68,19 @@ theorem findObject_cases {e : Names.Env} {r0 : Name} {rest : List Name} (hof : N
   split
   · exact h0
   · rename_i ro hfind
-    simp only [hne, if_false]
-    refine h1 ro (List.mem_of_find?_eq_some hfind) ?_
-    have hpred := List.find?_some hfind
-    cases hg : getObj e.st ro with
-    | none => simp [hg] at hpred
-    | some o => simp only [hg, decide_eq_true_eq] at hpred; exact ⟨o, rfl, hpred⟩
+    cases rest with
+    | nil => exact absurd rfl hne
+    | cons f tl' =>
+      simp only
+      cases hb : Names.rootBinds e ro f with
+      | false => simpa using hL
+      | true =>
+        simp only [Bool.not_true, Bool.false_eq_true, if_false]
+        refine h1 ro (List.mem_of_find?_eq_some hfind) ?_ (fun f' tl'' he => by injection he with e1 _; exact e1 ▸ hb)
+        have hpred := List.find?_some hfind
+        cases hg : getObj e.st ro with
+        | none => simp [hg] at hpred
+        | some o => simp only [hg, decide_eq_true_eq] at hpred; exact ⟨o, rfl, hpred⟩
 
 /-- a registered module object is the module of its qualified name -/
 theorem module_of_path {proj : Project} {rank : List Nat} (wf : WFacts proj rank) {s : St} (hI : PdInv proj s) {i : Nat}
@@ -86,7 +95,7 @@ theorem module_of_path {proj : Project} {rank : List Nat} (wf : WFacts proj rank
 theorem lookup_sub_none {proj : Project} {rank : List Nat} (wf : WFacts proj rank) (rx : RxFacts proj)
     (hmn : ∀ m, m < proj.length → ∀ n ∈ pathOf proj m, isSupersededName n = false) {s : St} (hI : PdInv proj s)
     {t : Nat} (ht : t < proj.length) (hpk : isPkg proj t = true) {n : Name}
-    (hnone : modIdx proj (pathOf proj t ++ [n]) = none) (hnr : isRootName proj n = false)
+    (hnone : modIdx proj (pathOf proj t ++ [n]) = none)
     (hns : (bodyOf proj t).any isStarStmt = false)
     (himp : ∀ st' ∈ bodyOf proj t, isImportStmt st' = true → n ∈ explicitNames st' →
       ∃ l' M' n' a' t', st' = Stmt.importFrom l' M' n' a' ∧ target proj t l' M' = some t' ∧ definesAny proj t' n' = true) :
@@ -152,11 +161,12 @@ theorem lookup_sub_none {proj : Project} {rank : List Nat} (wf : WFacts proj ran
     | nil => exact absurd hpT (wf.parentOk t ht).1
     | cons r0 tl =>
       rw [hpT] at hmemt hof
-      have hfo : ∀ ro, ([r0], ro) ∈ s.reg.all → ∀ p2, Names.expandName (envOf s) ro (tl ++ [n]) = some p2 →
+      have hfo : ∀ ro, ([r0], ro) ∈ s.reg.all → (∀ f tl', tl ++ [n] = f :: tl' → Names.rootBinds (envOf s) ro f = true) →
+          ∀ p2, Names.expandName (envOf s) ro (tl ++ [n]) = some p2 →
           (match Names.objFor (envOf s) p2 with | some o2 => isModuleObj s.reg o2 = false | none => True) := by
-        intro ro hro p2 hx
+        intro ro hro hguard p2 hx
         -- reach the package, then one component
-        have hone : ∃ first, Names.expandLoop (envOf s) t first [n] = some p2 := by
+        have hone : ∃ first, Names.expandLoop (envOf s) t first [n] = some p2 ∧ (first = true → ro = t ∧ tl = []) := by
           cases tl with
           | nil =>
             have : ro = t := by
@@ -164,7 +174,7 @@ theorem lookup_sub_none {proj : Project} {rank : List Nat} (wf : WFacts proj ran
               have h2 := dget_of_mem hI.reg.reg.uniq hmemt
               rw [h1] at h2; injection h2
             subst this
-            exact ⟨true, hx⟩
+            exact ⟨true, hx, fun _ => ⟨rfl, rfl⟩⟩
           | cons c cs =>
             have hdesc := Names.expandLoop_descend (envOf s) hI.reg (c :: cs) ro t [r0] true [n] (by simp) hro
               (show ([r0] ++ (c :: cs), t) ∈ s.reg.all from hmemt)
@@ -187,23 +197,17 @@ theorem lookup_sub_none {proj : Project} {rank : List Nat} (wf : WFacts proj ran
               (fun x hx' => hmn t ht x (by rw [hpT]; exact List.mem_cons_of_mem _ hx'))
             have hx' : Names.expandLoop (envOf s) ro true (c :: cs ++ [n]) = some p2 := hx
             rw [hdesc] at hx'
-            exact ⟨false, by simpa using hx'⟩
-        obtain ⟨first, hx1⟩ := hone
-        rcases expand_one hI ht ho hcl hdc first hx1 with h | ⟨_, _, h⟩ | h
+            exact ⟨false, by simpa using hx', fun h => by cases h⟩
+        obtain ⟨first, hx1, hfirst⟩ := hone
+        rcases expand_one hI ht ho hcl hdc first hx1 with h | ⟨hf1, hda, _⟩ | h
         · subst h; rw [hpT]; rw [hof]; trivial
-        · subst h
-          cases hof2 : Names.objFor (envOf s) [n] with
-          | none => trivial
-          | some o2 =>
-            simp only
-            cases hm2 : isModuleObj s.reg o2 with
-            | false => rfl
-            | true =>
-              exfalso
-              have hreg : dget s.reg.all [n] = some o2 := hof2
-              have := module_of_path wf hI hm2 (hI.reg.reg.keys _ _ (mem_of_dget hreg))
-              unfold isRootName at hnr
-              rw [this] at hnr; cases hnr
+        · -- the package is the root and binds `n` nowhere: the guard of `find_object` says otherwise
+          exfalso
+          obtain ⟨e1, e2⟩ := hfirst hf1
+          subst e1; subst e2
+          have hb := hguard n [] rfl
+          have hgo : getObj (envOf s).st ro = some o := ho
+          simp [Names.rootBinds, hgo, hdc, hda] at hb
         · cases hof2 : Names.objFor (envOf s) p2 with
           | none => trivial
           | some o2 =>
@@ -214,8 +218,9 @@ theorem lookup_sub_none {proj : Project} {rank : List Nat} (wf : WFacts proj ran
       have hne : tl ++ [n] ≠ [] := by simp
       simp only [List.cons_append] at hof ⊢
       have hQ : ∀ i, Names.findObject (envOf s) (r0 :: (tl ++ [n])) = .obj i → isModuleObj s.reg i = false := by
-        refine findObject_cases hof hne (fun F => ∀ i, F = .obj i → isModuleObj s.reg i = false) (fun i h => by cases h) ?_
-        intro ro hmem' ⟨oo, hgo, hname⟩
+        refine findObject_cases hof hne (fun F => ∀ i, F = .obj i → isModuleObj s.reg i = false) (fun i h => by cases h)
+          (fun i h => by cases h) ?_
+        intro ro hmem' ⟨oo, hgo, hname⟩ hguard
         obtain ⟨oo', hoo, hpar⟩ := hI.reg.tree.rootsOk ro hmem'
         have : oo' = oo := by
           have h1 : getObj (envOf s).st ro = some oo' := hoo
@@ -229,7 +234,7 @@ theorem lookup_sub_none {proj : Project} {rank : List Nat} (wf : WFacts proj ran
         | none => simp [hx] at hi
         | some p2 =>
           simp only [hx] at hi
-          have := hfo ro hro p2 hx
+          have := hfo ro hro hguard p2 hx
           cases hof2 : Names.objFor (envOf s) p2 with
           | none => simp [hof2] at hi
           | some o2 =>
@@ -258,7 +263,7 @@ theorem subLookup_of {proj : Project} {rank : List Nat} (hwf : WFr proj rank = t
   | none =>
     exfalso
     simp only [hm, Bool.and_eq_true, Bool.not_eq_true', List.all_eq_true, Bool.or_eq_true] at hp
-    obtain ⟨⟨hnr, hns⟩, himp⟩ := hp
+    obtain ⟨hns, himp⟩ := hp
     have himp' : ∀ st' ∈ bodyOf proj t, isImportStmt st' = true → n ∈ explicitNames st' →
         ∃ l' M' n' a' t', st' = Stmt.importFrom l' M' n' a' ∧ target proj t l' M' = some t' ∧ definesAny proj t' n' = true := by
       intro st' hst' hi hx
@@ -271,7 +276,7 @@ theorem subLookup_of {proj : Project} {rank : List Nat} (hwf : WFr proj rank = t
           | none => simp [ht'] at h
           | some t' => simp only [ht'] at h; exact ⟨l', M', n', a', t', rfl, ht', h⟩
         | _ => simp at h
-    have := lookup_sub_none wf rx (WFr.modNames hwf) hI htl hpk hm hnr hns himp'
+    have := lookup_sub_none wf rx (WFr.modNames hwf) hI htl hpk hm hns himp'
     rw [hl] at this; cases this
 
 end Imports.Rx
